@@ -24,6 +24,7 @@ import Scico.Proofs.ProxNuclearDual
 import Scico.Proofs.ProxPhase
 import Scico.Proofs.ProxAxis
 import Scico.Proofs.ProxCG
+import Scico.Proofs.ProxCGGen
 import Scico.Proofs.ProxEdge
 
 set_option linter.unusedSectionVars false
@@ -245,6 +246,19 @@ theorem C02_sqL2loss_cg_bound {m : ℕ} {lam scale : ℝ} (hlam : 0 < lam) (hs :
   refine ⟨p, cert_of_sysRes_zero hlam hs hw A y v p hp, fun x => ?_⟩
   rw [C02_sqL2loss_sys_model]
   exact dist_le_norm_sysRes hc hw A y v x p hp
+
+/-- **the CG path for ANY linear operator, real or complex, on any array layout** (index-free): `A : E → F` real-linear between real
+    inner-product spaces (`ℂⁿ` with `Re⟨·,·⟩`, block arrays, …), `At` its adjoint (hypothesis `SysData.adj` — property C01 of the operator),
+    `W` symmetric positive semi-definite.  The prox of `scale·⟨W(y - Ax), y - Ax⟩` exists, solves the system the code hands to `cg`, and every `x`
+    is within `‖residual(x)‖` of it. -/
+theorem C02_sqL2loss_cg_general {E F : Type*} [NormedAddCommGroup E] [InnerProductSpace ℝ E] [FiniteDimensional ℝ E]
+    [NormedAddCommGroup F] [InnerProductSpace ℝ F] {lam scale : ℝ} (hlam : 0 < lam) (hs : 0 ≤ scale)
+    {A : E →ₗ[ℝ] F} {At : F →ₗ[ℝ] E} {W : F →ₗ[ℝ] F} (h : ProxCGGen.SysData A At W) (y : F) (v : E) :
+    ∃ p : E, Cert Set.univ (ProxCGGen.lossFn scale A W y) lam v p ∧
+      ∀ x : E, ‖x - p‖ ≤ ‖ProxCGGen.sysRes (2 * scale * lam) A At W y v x‖ := by
+  have hc : 0 ≤ 2 * scale * lam := by positivity
+  obtain ⟨p, hp⟩ := ProxCGGen.exists_sysRes_zero hc h y v
+  exact ⟨p, ProxCGGen.cert_of_sysRes_zero hlam hs h y v p hp, fun x => ProxCGGen.dist_le_norm_sysRes hc h y v x p hp⟩
 
 /-- `NuclearNorm.prox` on the vector of singular values (`s ≥ 0`): `maximum(0, s - lam)` is the prox of the l1 norm -/
 theorem C02_nuclear_sv {lam : ℝ} (hlam : 0 < lam) (s : Fin n → ℝ) (hs : ∀ i, 0 ≤ s i) :
@@ -791,6 +805,12 @@ example : ∀ j, sqL2LossSysResidual (1 / 2 : ℝ) (fun _ : Fin 1 => 1) (fun _ _
   norm_num
 -- the denominator hypothesis of C02_sqL2loss_diag_anyscale with a NEGATIVE scale: scale = -1/4, lam = w = a = 1 gives 1/2 > 0
 example : (0 : ℝ) < 2 * (-1 / 4) * 1 * 1 * 1 * 1 + 1 := by norm_num
+-- the hypothesis `SysData` of C02_sqL2loss_cg_general on COMPLEX data: `A` = multiplication by `a ∈ ℂ` (real-linear), `At` = multiplication by
+-- `conj a` (adjoint for `Re⟨·,·⟩`), `W` = identity
+example (a : ℂ) : ProxCGGen.SysData (LinearMap.mulLeft ℝ a) (LinearMap.mulLeft ℝ ((starRingEnd ℂ) a)) (LinearMap.id : ℂ →ₗ[ℝ] ℂ) := by
+  refine ⟨fun u d => ?_, fun _ _ => rfl, fun u => real_inner_self_nonneg⟩
+  simp only [LinearMap.mulLeft_apply, Complex.inner, map_mul, Complex.conj_conj]
+  ring_nf
 end Examples
 
 end Scico.Props.C02
